@@ -331,7 +331,9 @@ def buffer_inv(an, st, obj, prefix, assume):
     if assume:
         if obj is None:
             return None
-        st.env[("payload", obj, prefix)] = Region("payload(%s%s)" % (obj, prefix.rstrip(".")), size, "storage")
+        reg = Region("payload(%s%s)" % (obj, prefix.rstrip(".")), size, "storage")
+        st.env[("payload", obj, prefix)] = reg
+        st.env[("powner", reg.id)] = (obj, prefix)
         st.env[("used0", obj, prefix)] = used        # length when the object came into view (GAPFILL)
         st.add(size - used)
         st.add(Lin.const(PTRDIFF_MAX) - size)
